@@ -141,9 +141,24 @@ def flow(body, seeds, extra=(), through_try=True):
 
 
 def ok_edges(body, dest, extra=()):
-    """Ok edges of the `?` applied to the (awaited) value of local `dest` itself."""
+    """Ok edges of the `?` applied to the (awaited) value of local `dest` itself, or of a `match` / is_ok() on it."""
     pre = flow(body, [dest], extra=extra, through_try=False)
-    return [te["ok_edge"] for te in cfg.try_edges(body, pre) if te["ok_edge"]]
+    out = [te["ok_edge"] for te in cfg.try_edges(body, pre) if te["ok_edge"]]
+    der = cfg.derived_locals(body, list(pre))
+    for j, blk in enumerate(body.blocks):
+        tt = blk["term"]
+        if blk.get("cleanup") or tt["k"] != "switch" or tt.get("x") == "desugar:QuestionMark":
+            continue
+        pl = cfg.op_place(tt["d"])
+        ds = cfg.defs(body).get(pl[0], []) if pl else []
+        if ds and ds[0][0] == "assign" and ds[0][2]["k"] == "discr" and ds[0][2].get("enum", "").endswith("result::Result") \
+                and ds[0][2]["p"][0] in pre:
+            names = dict((v, n) for v, n in ds[0][2].get("variants", []))
+            tg = dict((v, tb) for v, tb in tt["ts"])
+            for v, n in names.items():
+                if n == "Ok":
+                    out.append((j, tg.get(v, tt.get("else"))))
+    return out
 
 
 def cut(body, site, edges):
@@ -297,8 +312,23 @@ def ok_blocks(body):
     return cfg.ret_class_blocks(body)[0]
 
 
-def bearer_locals(body):
+def _returns_extracted_header(fa, path):
+    """async helper `path`: its coroutine body returns a value computed from RequestPartsExt::extract"""
+    hb = fa.body(path + "::{closure#0}")
+    if hb is None:
+        return False
+    sl, calls_in, reads = cfg.backward_slice(hb, [0], skip_call=_not_residual)
+    return any((cfg.callee(t) or "").endswith("RequestPartsExt>::extract") for i, t in calls_in)
+
+
+def bearer_locals(body, fa=None):
     seeds = [t["d"][0] for i, t in cfg.calls(body) if (cfg.callee(t) or "").endswith("RequestPartsExt>::extract")]
+    if fa is not None:
+        # ... or from a local async helper that does the extraction (`bearer_header(parts).await?`)
+        for i, t in cfg.calls(body):
+            n = cfg.callee(t) or ""
+            if n.startswith("agdb_server::") and (fa.fns.get(n) or {}).get("async") and _returns_extracted_header(fa, n):
+                seeds.append(t["d"][0])
     return flow(body, seeds, extra=TOKEN_THROUGH) if seeds else {}
 
 
@@ -320,7 +350,7 @@ def r24b(ctx):
                "Ok(%s) is returned only through the Ok edge of user_id_from_token(..).await?" % ex if ok else
                "extractor %s can succeed without a successful ServerDb::user_id_from_token (calls %d, surviving path %s)" % (
                    ex, len(cs), cfg.path_str(b, p) if p else "-"), b.where)
-        bl = bearer_locals(b)
+        bl = bearer_locals(b, fa)
         ok = bool(cs) and all((who(b, t["a"][1]) or (None,))[0] in bl for i, t in cs)
         ctx.ob("R24b", "%s:token-from-request" % ex, ok,
                "the validated token is the request's `Authorization: Bearer` value" if ok else
@@ -360,7 +390,7 @@ def r24b(ctx):
                "Ok(AdminId) is returned only through is_admin(..).await? == true" if ok else
                "extractor AdminId can succeed without is_admin returning true (surviving path %s)" % (
                    cfg.path_str(b, p) if p else "-"), b.where)
-        bl = bearer_locals(b)
+        bl = bearer_locals(b, fa)
         ok = bool(cs) and all((who(b, t["a"][1]) or (None,))[0] in bl for i, t in cs)
         ctx.ob("R24b", "AdminId:token-from-request", ok,
                "the checked token is the request's bearer value" if ok else
@@ -368,7 +398,7 @@ def r24b(ctx):
     # -- ClusterId: success only if bearer == config.cluster_token
     b = ctx.anchor("R24b", FRP % "ClusterId")
     if b:
-        bl = bearer_locals(b)
+        bl = bearer_locals(b, fa)
         edges = []
         for i, t, op in cmp_calls(b):
             ws = [who(b, a) for a in t["a"]]
@@ -389,7 +419,7 @@ def r24b(ctx):
         if not (outer and cl):
             continue
         tr = [(i, t) for i, t in cfg.calls(outer) if common.norm(cfg.callee(t) or "") == "agdb::DbImpl::transaction"]
-        ok = len(tr) == 1 and tr[0][1]["d"] == [0] and cl in common.closure_bodies_passed(fa, outer, tr[0][1])
+        ok = len(tr) == 1 and tr[0][1]["d"] == [0] and cl.path in [x.path for x in common.closure_bodies_passed(fa, outer, tr[0][1])]
         ctx.ob("R24b", "%s:returns-closure-result" % fn, ok,
                "the look-up returns the result of its transaction closure unchanged" if ok else
                "`%s` no longer returns the result of the single transaction closure (idiom not recognised)" % fn, outer.where)
